@@ -76,6 +76,34 @@ def rHCParams : RM (HCParams Float) := do
 def totals (nb : Nat) (l : List (Nat × SpF Float)) : List Float :=
   (List.range nb).flatMap fun b => spfl (bodyTotal b l)
 
+/-- the exported part of an `hc` record: number of bodies, transition velocity, body kinematics, contacts -/
+def rHCScene : RM (Nat × Float × List (Pose Float × Vel Float) × List (HCContact Float)) := do
+    let nscene ← rN; let _ ← rList nscene tok
+    let nb ← rN; let vt ← rF
+    let kin ← rList (nb + 1) (do let X ← rPose; let V ← rVel; return (X, V))
+    let nc ← rN
+    let cs ← rList nc (do
+      let b1 ← rN; let b2 ← rN; let p1 ← rHCParams; let p2 ← rHCParams
+      let loc ← rV3; let n ← rV3; let depth ← rF; let radius ← rF
+      let k1 := kin.getD b1 default; let k2 := kin.getD b2 default
+      let q1 : HCParams Float := { p1 with stiffness := Float.pow p1.stiffness (2/3) }
+      let q2 : HCParams Float := { p2 with stiffness := Float.pow p2.stiffness (2/3) }
+      return ({ b1 := b1, b2 := b2, p1 := q1, p2 := q2, c := ⟨loc, n, depth, radius⟩,
+                X1 := k1.1, X2 := k2.1, V1 := k1.2, V2 := k2.2 } : HCContact Float))
+    return (nb, vt, kin, cs)
+
+/-- the springs of an `ef` record evaluated by the model -/
+def rEFScene : RM (Vel Float × Vel Float × Float × Float × List (EFOut Float)) := do
+    let nscene ← rN; let _ ← rList nscene tok
+    let vt ← rF; let k ← rF; let c ← rF; let us ← rF; let ud ← rF; let uv ← rF
+    let _bOther ← rN
+    let X1 ← rPose; let V1 ← rVel; let X2 ← rPose; let V2 ← rVel
+    let ns ← rN
+    let outs ← rList ns (do
+      let area ← rF; let np ← rV3; let sp ← rV3
+      return (area, efSpring fsqrt vt ⟨k, c, us, ud, uv⟩ area np sp X1 X2 V1 V2))
+    return (V1, V2, k, 0, outs.map (·.2))
+
 def handle (fn : String) : RM (Option (List Float)) := do
   match fn with
   -- ------------------------------------------------------------------ non-contact elements (C38/C12/C13)
@@ -107,6 +135,11 @@ def handle (fn : String) : RM (Option (List Float)) := do
   | "mobStop" =>
     let k ← rF; let d ← rF; let lo ← rF; let hi ← rF; let q ← rF; let qd ← rF
     return some [mobStopForce k d lo hi q qd, mobStopPE k lo hi q]
+  | "dissStop" =>
+    -- dissipation term of the stop = power + d(PE)/dt, the latter as the jet derivative of the coded energy
+    let k ← rF; let d ← rF; let lo ← rF; let hi ← rF; let q ← rF; let qd ← rF
+    let rate := (mobStopPE (K := Jet Float) (Jet.const k) (Jet.const lo) (Jet.const hi) ⟨q, qd⟩).eps
+    return some [mobStopForce k d lo hi q qd * qd + rate]
   | "globalDamper" =>
     let c ← rF; let n ← rN; let u ← rList n rF
     return some (globalDamperForce c u ++ [0])
@@ -130,19 +163,14 @@ def handle (fn : String) : RM (Option (List Float)) := do
   | "pc" => return some [0]
   -- ------------------------------------------------------------------ compliant contact (C37/C12/C13)
   | "hc" =>
-    let nscene ← rN; let _ ← rList nscene tok
-    let nb ← rN; let vt ← rF
-    let kin ← rList (nb + 1) (do let X ← rPose; let V ← rVel; return (X, V))
-    let nc ← rN
-    let cs ← rList nc (do
-      let b1 ← rN; let b2 ← rN; let p1 ← rHCParams; let p2 ← rHCParams
-      let loc ← rV3; let n ← rV3; let depth ← rF; let radius ← rF
-      let k1 := kin.getD b1 default; let k2 := kin.getD b2 default
-      let q1 : HCParams Float := { p1 with stiffness := Float.pow p1.stiffness (2/3) }
-      let q2 : HCParams Float := { p2 with stiffness := Float.pow p2.stiffness (2/3) }
-      return ({ b1 := b1, b2 := b2, p1 := q1, p2 := q2, c := ⟨loc, n, depth, radius⟩,
-                X1 := k1.1, X2 := k2.1, V1 := k1.2, V2 := k2.2 } : HCContact Float))
+    let (nb, vt, _kin, cs) ← rHCScene
     return some (totals (nb + 1) (hcLoop fsqrt vt cs) ++ [hcPE fsqrt vt cs])
+  | "dissHC" =>
+    -- power of the model's body forces + Σ fH·vnormal (= d(PE)/dt at fixed contact geometry, theorem hertzPE_rate)
+    let (_nb, vt, kin, cs) ← rHCScene
+    let power := (hcLoop fsqrt vt cs).foldl (fun a e => a + e.2.power (kin.getD e.1 default).2) 0
+    let rate := cs.foldl (fun a h => let o := hcContact fsqrt vt h; a + o.fH * o.vnormal) 0
+    return some [power + rate]
   | "smooth" =>
     let _bs ← rN; let _bh ← rN
     let st ← rF; let di ← rF; let us ← rF; let ud ← rF; let uv ← rF; let vt ← rF; let cf ← rF; let bd ← rF; let bv ← rF
@@ -157,18 +185,18 @@ def handle (fn : String) : RM (Option (List Float)) := do
     let o := expNormal Float.exp d0 d1 d2 cz maxF pz vz
     return some [o.fzElas, o.fzDamp, o.fz]
   | "ef" =>
-    let nscene ← rN; let _ ← rList nscene tok
-    let vt ← rF; let k ← rF; let c ← rF; let us ← rF; let ud ← rF; let uv ← rF
-    let _bOther ← rN
-    let X1 ← rPose; let V1 ← rVel; let X2 ← rPose; let V2 ← rVel
-    let ns ← rN
-    let outs ← rList ns (do
-      let area ← rF; let np ← rV3; let sp ← rV3
-      return efSpring fsqrt vt ⟨k, c, us, ud, uv⟩ area np sp X1 X2 V1 V2)
+    let (_, _, _, _, outs) ← rEFScene
     let F1 := outs.foldl (fun a o => SpF.add a o.F1) SpF.zero
     let F2 := outs.foldl (fun a o => SpF.add a o.F2) SpF.zero
     let pe := outs.foldl (fun a o => a + o.pe) 0
     return some (spfl F1 ++ spfl F2 ++ [pe])
+  | "dissEF" =>
+    -- Σ over springs: power + k a x·vnormal, with k a x = 2 pe / x (x ≠ 0), written through the model's outputs
+    let (V1, V2, _, _, outs) ← rEFScene
+    let d := outs.foldl (fun a o =>
+      let kax := if o.x == 0 then 0 else 2 * o.pe / o.x
+      a + o.F1.power V1 + o.F2.power V2 + kax * o.vnormal) 0
+    return some [d]
   | "expnPE" =>
     let d0 ← rF; let d1 ← rF; let d2 ← rF; let cz ← rF; let maxF ← rF; let _mus ← rF; let _muk ← rF
     let station ← rV3; let XP ← rPose; let X ← rPose; let V ← rVel
